@@ -23,7 +23,7 @@ RULE = ("feature sets of 300 (quick: 250) features on 2-4 seqids x 3 strands x 5
         "feature, 10% around 2^29; 1 <= start <= end always.  non-trivial = expected result not empty and a query end "
         "within +-2 of a bin boundary or >= 2^29-2; distinct = distinct (feature set, query) pairs")
 REQUIRED = ["queries executed", "result rows compared", "sql: bin clause present", "sql: bin clause absent",
-            "sql: bin clause with 9..899 bins", "sql: region within, both bounds in range, no bin clause (>= 900 bins)",
+            "sql: region bin clause with 9..899 bins", "sql: limit bin clause with 9..899 bins", "sql: region within, both bounds in range, no bin clause (>= 900 bins)",
             "sql: limit, no bin clause (>= 900 bins)", "queries with an end >= 2**29", "one-sided queries",
             "queries touching a feature end exactly", "contract evaluations: helpers.make_query",
             "contract evaluations: bins.bins"]
@@ -208,7 +208,7 @@ def observe_sql(ctx, q, present, nb):
     ctx.mon("sql: bin clause present" if present else "sql: bin clause absent")
     kind = "region" if q["api"] == "region" else "limit"
     if present:
-        ctx.mon("sql: bin clause with %s bins" % ("1" if nb == 1 else "2..8" if nb < 9 else "9..899" if nb < 900 else ">=900"))
+        ctx.mon("sql: %s bin clause with %s bins" % (kind, "1" if nb == 1 else "2..8" if nb < 9 else "9..899" if nb < 900 else ">=900"))
         ctx.mon("sql: %s %s with bin clause" % (kind, "within" if q["within"] else "overlap"))
         return
     two = s is not None and e is not None
